@@ -1000,7 +1000,7 @@ class PathResult:
         return d[-1][1] if d else None
 
     def calls(self, *regexes):
-        return [(s, p) for s, k, p in self.effects if k == "call" and callee_is(p, *regexes)]
+        return [(s, p) for s, k, p in self.effects if k == "call" and (not regexes or callee_is(p, *regexes))]
 
 
 def describe_operand(body, op, depth=0):
@@ -1063,7 +1063,7 @@ def enumerate_paths(body, max_paths=512, start_bb=0, succ=None):
         t = body.blocks[bb]["term"]
         l = op_local(t["discr"])
         if l is None:
-            return ("?", None)
+            return (describe_operand(body, t["discr"]), None)
         d = local_def_desc(body, l)
         if d[0] == "discr":
             return (f"discr({describe_place(body, d[1])}:{d[2]})", {v: n for v, n in d[3]})
